@@ -475,6 +475,8 @@ typedef struct {
     ZSTD_pthread_cond_t cond;
     ZSTD_CCtx_params params;
     ldmState_t ldmState;
+    size_t ldmHashTableSize;      /* bytes held by ldmState.hashTable : not always what the current parameters ask for */
+    size_t ldmBucketOffsetsSize;  /* bytes held by ldmState.bucketOffsets */
     XXH64_state_t xxhState;
     unsigned nextJobID;
     /* Protects ldmWindow.
@@ -525,10 +527,12 @@ ZSTDMT_serialState_reset(serialState_t* serialState,
         if (serialState->ldmState.hashTable == NULL || serialState->params.ldmParams.hashLog < hashLog) {
             ZSTD_customFree(serialState->ldmState.hashTable, cMem);
             serialState->ldmState.hashTable = (ldmEntry_t*)ZSTD_customMalloc(hashSize, cMem);
+            serialState->ldmHashTableSize = serialState->ldmState.hashTable ? hashSize : 0;
         }
         if (serialState->ldmState.bucketOffsets == NULL || prevBucketLog < bucketLog) {
             ZSTD_customFree(serialState->ldmState.bucketOffsets, cMem);
             serialState->ldmState.bucketOffsets = (BYTE*)ZSTD_customMalloc(numBuckets, cMem);
+            serialState->ldmBucketOffsetsSize = serialState->ldmState.bucketOffsets ? numBuckets : 0;
         }
         if (!serialState->ldmState.hashTable || !serialState->ldmState.bucketOffsets)
             return 1;
@@ -1064,6 +1068,7 @@ size_t ZSTDMT_sizeof_CCtx(ZSTDMT_CCtx* mtctx)
             + ZSTDMT_sizeof_CCtxPool(mtctx->cctxPool)
             + ZSTDMT_sizeof_seqPool(mtctx->seqPool)
             + ZSTD_sizeof_CDict(mtctx->cdictLocal)
+            + mtctx->serial.ldmHashTableSize + mtctx->serial.ldmBucketOffsetsSize
             + mtctx->roundBuff.capacity;
 }
 
